@@ -111,6 +111,7 @@ class FusionEval(EofWalk):
 def fusion_table(ctx, r):
     db = ctx.db
     f = db.fn("space_text", file=SPACE)
+    r.names(f, "pc", "next", "kw1", "kw2", "ct", "buf", "tmp")
     consts, rows, chars = _tables(db)
     r.require(len(rows) >= 90 and all(v is not None for _, v in rows), "punctuator table not extracted (%d rows)" % len(rows))
     r.require(chars is not None and len(chars) == 128 and None not in chars, "CharTable::chars not extracted")
